@@ -39,10 +39,14 @@ cvars == <<vars, cls, nmeta, par, nname>>
 Static == -1
 NodeNames == {"short", "long"}            \* identifier stored inline / separately (narrowed by the exhaustive configurations)
 Sizes  == {"small", "big", "buf"}            \* text below / above the small limit through mpt_meta_new; mpt_meta_buffer
-ClassOf(sz) == IF sz = "small" THEN "small" ELSE "bufm"
+ClassOf(sz) == IF sz = "small" THEN "small" ELSE IF sz = "enc" THEN "bufe" ELSE "bufm"
 CShare(k, c) == k = "cxx" /\ c = "bufm"      \* addref works
 NullOK(k)    == k = "cxx"                    \* mpt_meta_new(0): only the override takes it (the C one reads the value)
-MetaCls == {"small", "bufm"}
+MetaCls == {"small", "bufm", "bufe"}
+(* "bufe" (size "enc", creator cxx only): a buffer metatype whose message encoder has a message IN PROGRESS -- the   *)
+(* refusing state of io::buffer::metatype::clone().  Made by a subclass (uncounted: addref answers 0, unref          *)
+(* releases); held by handles only.  clone() answers refused and nothing changes.                                   *)
+Busy(t) == t > 0 /\ cls[t] = "bufe"
 IsNodeC(o) == o > 0 /\ cls[o] = "node"
 IsMetaC(x) == x = Static \/ (x > 0 /\ cls[x] \in MetaCls)
 
@@ -97,7 +101,7 @@ NewMeta(h, sz) ==
      THEN /\ NullOK(kind)
           /\ holds' = [holds EXCEPT ![h] = Static] /\ UNCHANGED <<made, cnt, alive, cls, nmeta, par>>
           /\ CAnswer("newmeta", arg, "ok", <<>>)
-     ELSE /\ sz \in Sizes /\ o <= NObj
+     ELSE /\ (sz \in Sizes \/ (sz = "enc" /\ kind = "cxx")) /\ o <= NObj
           /\ made' = o /\ holds' = [holds EXCEPT ![h] = o] /\ cls' = [cls EXCEPT ![o] = ClassOf(sz)]
           /\ CSetM(NewObj(CM0, o, 0))
           /\ CAnswer("newmeta", arg, "ok", <<>>)
@@ -118,6 +122,8 @@ CloneMeta(h, g) ==
   /\ IF t = Static
      THEN /\ holds' = [holds EXCEPT ![g] = Static] /\ UNCHANGED <<made, cnt, alive, cls, nmeta, par>>
           /\ CAnswer("clonemeta", arg, "ok", <<>>)
+     ELSE IF Busy(t)
+     THEN CSame /\ CAnswer("clonemeta", arg, "refused", <<>>)
      ELSE /\ o <= NObj
           /\ made' = o /\ holds' = [holds EXCEPT ![g] = o] /\ cls' = [cls EXCEPT ![o] = cls[t]]
           /\ CSetM(NewObj(CM0, o, 0))
@@ -167,7 +173,7 @@ SetValue(n, sz) ==
 (* mpt_node_clone does)                                                                                          *)
 MoveMeta(n, h, via) ==
   LET t == holds[h]  old == nmeta[n]  m == CLower(CM0, old) IN
-  /\ IsNodeC(n) /\ alive[n] /\ IsMetaC(t) /\ CIdle
+  /\ IsNodeC(n) /\ alive[n] /\ IsMetaC(t) /\ ~Busy(t) /\ CIdle
   /\ via \in (IF kind = "cxx" THEN {"cxx", "raw"} ELSE {"raw"})
   /\ holds' = [holds EXCEPT ![h] = 0] /\ UNCHANGED <<made, cls>>
   /\ CSetM([m EXCEPT !.nmeta[n] = t])
@@ -264,6 +270,28 @@ ClearNode(n) ==
   /\ CSetM(m) /\ UNCHANGED <<holds, made, cls>>
   /\ CAnswer("clear", [n |-> n], "ok", m.gone)
 
+(* ALLOCATION FAILURE as an outcome of the producers (arg.fail = 1: some allocation of the call was refused; the     *)
+(* binding sweeps which one).  A producer that answers "refused" has changed nothing: every object alive before is   *)
+(* alive with the same count, nothing new stays allocated, nothing is released (not once, let alone twice).  No      *)
+(* bound on made: nothing is made.                                                                                   *)
+NoMem(a, arg) == CIdle /\ CSame /\ CAnswer(a, arg, "refused", <<>>)
+NewMetaNoMem(h, sz)  == holds[h] = 0 /\ sz \in Sizes /\ NoMem("newmeta", [h |-> h, sz |-> sz, fail |-> 1])
+NewNodeNoMem(h, nm)  == holds[h] = 0 /\ nm \in NodeNames /\ NoMem("newnode", [h |-> h, nm |-> nm, fail |-> 1])
+CloneMetaNoMem(h, g) == holds[h] > 0 /\ IsMetaC(holds[h]) /\ holds[g] = 0 /\ NoMem("clonemeta", [h |-> h, g |-> g, fail |-> 1])
+SetValueNoMem(n, sz) == IsNodeC(n) /\ alive[n] /\ sz \in {"small", "big"} /\ NoMem("setvalue", [n |-> n, sz |-> sz, fail |-> 1])
+CloneNodeNoMem(n, g) == IsNodeC(n) /\ alive[n] /\ holds[g] = 0 /\ NoMem("clonenode", [n |-> n, g |-> g, fail |-> 1])
+AssignNoMem(n, p, sz) ==
+  /\ IsNodeC(n) /\ alive[n] /\ p \in Paths /\ sz \in {"small", "big", "null"}
+  /\ LET w == Walk(n, PathOf(p)) IN ~w.amb /\ (sz # "null" \/ Len(w.rest) > 0)
+  /\ NoMem("assign", [n |-> n, p |-> p, sz |-> sz, fail |-> 1])
+NoMemNext ==
+  \/ \E h \in Handles, sz \in Sizes : NewMetaNoMem(h, sz)
+  \/ \E h \in Handles, nm \in NodeNames : NewNodeNoMem(h, nm)
+  \/ \E h \in Handles, g \in Handles : CloneMetaNoMem(h, g)
+  \/ \E n \in Objs, sz \in {"small", "big"} : SetValueNoMem(n, sz)
+  \/ \E n \in Objs, g \in Handles : CloneNodeNoMem(n, g)
+  \/ \E n \in Objs, p \in Paths, sz \in {"small", "big", "null"} : AssignNoMem(n, p, sz)
+
 (* everything is released *)
 CTeardownExp(a) ==
   [ret |-> "ok", href |-> [h \in Handles |-> 0], alive |-> [o \in Objs |-> 0], gone |-> AliveSeq(a, 1),
@@ -289,7 +317,7 @@ CInitKind(k) ==
 CInit == \E k \in Kinds : CInitKind(k)
 
 CNext ==
-  \/ \E h \in Handles, sz \in Sizes \cup {"null"} : NewMeta(h, sz)
+  \/ \E h \in Handles, sz \in Sizes \cup {"null", "enc"} : NewMeta(h, sz)
   \/ \E h \in Handles, nm \in NodeNames : NewNode(h, nm)
   \/ \E h \in Handles, g \in Handles : CloneMeta(h, g) \/ AddRef(h, g)
   \/ \E n \in Objs, g \in Handles : TakeMeta(n, g) \/ Unlink(n, g) \/ CloneNode(n, g) \/ AddChild(n, g)
@@ -299,6 +327,7 @@ CNext ==
   \/ \E n \in Objs : DestroyInner(n) \/ ClearNode(n)
   \/ \E n \in Objs, p \in Paths, sz \in {"small", "big", "null"} : Assign(n, p, sz)
   \/ \E h \in Handles, via \in PrintVias : PrintMeta(h, via)
+  \/ NoMemNext
   \/ CTeardown
 
 CSpec == CInit /\ [][CNext]_cvars
@@ -308,7 +337,7 @@ CSpec == CInit /\ [][CNext]_cvars
 CTypeOK ==
   /\ kind \in Kinds /\ made \in 0..NObj
   /\ \A h \in Handles : holds[h] \in -1..made
-  /\ \A o \in Objs : cls[o] \in {"none", "node", "small", "bufm"} /\ (cls[o] = "none") = (o > made)
+  /\ \A o \in Objs : cls[o] \in {"none", "node", "small", "bufm", "bufe"} /\ (cls[o] = "none") = (o > made)
   /\ \A o \in Objs : nmeta[o] \in -1..made /\ par[o] \in 0..made /\ cnt[o] \in 0..Max
   /\ \A o \in Objs : nname[o] \in {"none", "short", "long", "a", "b"} /\ (nname[o] # "none" <=> cls[o] = "node")
 (* a handle holds a metatype, the static, or the ROOT of a tree; what a node holds is a metatype *)
